@@ -224,7 +224,7 @@ def pair_suites(fmt, tier, pp="C03"):
 def fault_suites(fmt, tier):
     alpha = FA if fmt == "fasta" else FQ
     L = q(tier, 4, 5) if fmt == "fasta" else q(tier, 5, 6)
-    kinds = ["other", "permission_denied", "unexpected_eof", "would_block"]
+    kinds = ["other", "permission_denied", "unexpected_eof", "would_block", "seek_interrupted"]
     hist = {"fixed": [NEXT, SET0, EXACT(2), {"ops": [{"o": "next"}, {"o": "seekl", "i": 0}, {"o": "next"}, {"o": "seekl", "i": 1}], "tail": {"o": "next"}}]}
     return [
         ("fault-enum%d" % L, suite(fmt, enum(alpha, L), [3, 4, 64], hist, chunks=[[0], [1]], faults={"mode": "each", "kinds": kinds}, slots=1, extra=2, sample=q(tier, 3, 0)), 8),
@@ -238,6 +238,15 @@ def eof_suites(fmt, tier):
     has seen is empty, and the end it has reported is final"""
     return [("eof-then-data-" + fmt, suite(fmt, rnd(q(tier, 150, 1500), maxrec=3, maxfield=3, damage=0), [16, 64], {"fixed": [NEXT, ITER, INTO, SET0, EXACT(2)]},
                                          chunks=[[1000000, 0]], slots=1, extra=3), 2)]
+
+
+def midstream_suites(fmt, tier):
+    """record-by-record reading with a policy installed in mid-stream, and with interrupted reads"""
+    polh = {"fixed": [{"ops": [{"o": "next"}] * k + [{"o": "pol", "p": pk}], "tail": {"o": "next"}} for k in (1, 2, 3) for pk in ({"k": "std"}, {"k": "du", "a": 8})]
+                     + [{"ops": [{"o": "next"}, {"o": "pol", "p": {"k": "std"}}, {"o": "next"}, {"o": "pol", "p": {"k": "plus", "a": 2}}], "tail": {"o": "iter"}}]}
+    return [("next-policy-change-" + fmt, suite(fmt, rnd(q(tier, 400, 4000), maxrec=5, maxfield=4, damage=20), [3, 8, 64], polh, chunks=[[0]], slots=1, extra=1), 2),
+            ("next-interrupted-" + fmt, suite(fmt, rnd(q(tier, 300, 3000), maxrec=4, maxfield=4, damage=20), [3, 8, 64], {"fixed": [NEXT, ITER]}, chunks=[[0], [2], [8]], intr=[2, 3],
+                                             slots=1, extra=1), 2)]
 
 
 def near_capacity_inputs(fmt):
@@ -261,7 +270,9 @@ def near_capacity_inputs(fmt):
 def policy_suites(fmt, tier):
     alpha = FA if fmt == "fasta" else FQ
     L = q(tier, 5, 6) if fmt == "fasta" else q(tier, 6, 7)
-    pols = [{"k": "std"}, {"k": "plus", "a": 1}, {"k": "plus", "a": 2}, {"k": "refuse"}, {"k": "dmax", "a": 6}, {"k": "dmax", "a": 12}, {"k": "du", "a": 4}, {"k": "dul", "a": 4, "b": 10}]
+    # (stall: a policy that answers with the current size once or twice - a legal answer that changes nothing - before it doubles)
+    pols = [{"k": "std"}, {"k": "plus", "a": 1}, {"k": "plus", "a": 2}, {"k": "refuse"}, {"k": "dmax", "a": 6}, {"k": "dmax", "a": 12}, {"k": "du", "a": 4}, {"k": "dul", "a": 4, "b": 10},
+            {"k": "stall", "a": 1}, {"k": "stall", "a": 2}]
     return [
         ("policy-enum%d" % L, suite(fmt, enum(alpha, L), [3, 4, 5], {"fixed": [NEXT, SET0, EXACT(2)]}, chunks=[[0]], pols=pols, slots=1, extra=2, sample=q(tier, 3 if fmt == "fasta" else 8, 0)), 8),
         ("policy-struct", suite(fmt, rnd(q(tier, 1500, 15000), maxrec=6, maxfield=6, damage=15), {"abs": [3, 4, 6, 8, 12], "rel": [-4, -1]},
@@ -285,14 +296,18 @@ def build_jobs(prop, tier):
     """the jobs of one property"""
     J = []
     if prop == "C01":
-        J.append(ReaderJob("c01", plain_suites("fasta", tier) + eof_suites("fasta", tier) + view_suites("fasta", tier)[1:2]))
+        J.append(ReaderJob("c01", plain_suites("fasta", tier) + eof_suites("fasta", tier) + view_suites("fasta", tier)[1:2] + midstream_suites("fasta", tier)))
     elif prop == "C02":
-        J.append(ReaderJob("c02", plain_suites("fastq", tier) + eof_suites("fastq", tier)))
+        J.append(ReaderJob("c02", plain_suites("fastq", tier) + eof_suites("fastq", tier) + midstream_suites("fastq", tier)))
     elif prop == "C03":
         J.append(ReaderJob("c03", pair_suites("fasta", tier) + pair_suites("fastq", tier)))
     elif prop == "C04":
         # (also with policies installed in mid-stream, among them the retry after a refusal)
-        J.append(ReaderJob("c04", history_suites("fasta", tier) + history_suites("fastq", tier) + policy_suites("fasta", tier)[1:2] + policy_suites("fastq", tier)[1:2]
+        S0 = {"o": "set", "s": 0}
+        SH = {"o": "shrink", "s": 0}
+        shr = {"fixed": [{"ops": [S0] * k + [SH], "tail": S0} for k in (1, 2, 3, 4)] + [{"ops": [{"o": "exact", "s": 0, "n": 3}, {"o": "exact", "s": 0, "n": 1}, SH, S0, SH], "tail": S0}]}
+        shrink = [("shrink-after-refill-" + f2, suite(f2, rnd(q(tier, 600, 6000), maxrec=7, maxfield=6, damage=10), [8, 16, 24, 64], shr, chunks=[[0]], slots=1, extra=1), 4) for f2 in ("fasta", "fastq")]
+        J.append(ReaderJob("c04", history_suites("fasta", tier) + history_suites("fastq", tier) + shrink + policy_suites("fasta", tier)[1:2] + policy_suites("fastq", tier)[1:2]
                            + policy_suites("fasta", tier)[3:] + policy_suites("fastq", tier)[3:]))
     elif prop == "C05":
         # "from any reader state": also seeks after a source error (the last of the fault suites' histories seeks)
@@ -303,7 +318,7 @@ def build_jobs(prop, tier):
     elif prop == "C06":
         J.append(ReaderJob("c06", plain_suites("fasta", tier)[-2:] + plain_suites("fastq", tier)[-2:] + history_suites("fasta", tier)[1:] + history_suites("fastq", tier)
                            + fault_suites("fasta", tier) + fault_suites("fastq", tier) + policy_suites("fasta", tier)[:2] + policy_suites("fastq", tier)[:2]
-                           + eof_suites("fasta", tier) + eof_suites("fastq", tier)))
+                           + eof_suites("fasta", tier) + eof_suites("fastq", tier) + policy_suites("fasta", tier)[3:4] + policy_suites("fastq", tier)[3:4]))
     elif prop == "C09":
         J.append(ReaderJob("c09", policy_suites("fasta", tier) + policy_suites("fastq", tier)))
     elif prop == "C13":
@@ -327,7 +342,9 @@ def build_jobs(prop, tier):
         # errors reached by next(), by record sets and after seeks - also after a seek the source refused
         J.append(ReaderJob("c17", plain_suites("fasta", tier) + plain_suites("fastq", tier)
                            + history_suites("fastq", tier)[:1] + fault_suites("fastq", tier)[1:]
-                           + policy_suites("fastq", tier)[1:2] + policy_suites("fastq", tier)[3:]))
+                           + policy_suites("fastq", tier)[1:2] + policy_suites("fastq", tier)[3:]
+                           + [("errors-whitespace-ids", suite("fastq", rnd(q(tier, 1500, 15000), maxrec=3, maxfield=6, damage=70, fieldalpha=[65, 66, 32, 9, 9, 11, 12, 13, 0xC2, 0xA0]),
+                                                             [16, 64], {"fixed": [NEXT, SET0]}, chunks=[[0]], slots=1, extra=1), 4)]))
     elif prop == "C18":
         fl = {"alloc": True}
         reuse = []
@@ -342,8 +359,13 @@ def build_jobs(prop, tier):
         fl = {"serde": True}
         # (the last two suites also log every view of the records of the deserialised sets)
         flv = {"serde": True, "views": True}
+        import itertools
+        hb = [92, 120, 52, 49, 97, 32]      # backslash x 4 1 a space
+        heads = [list(h) for n in range(0, q(tier, 5, 6) + 1) for h in itertools.product(hb, repeat=n)]
+        esc = [("serde-escape-headers-fasta", suite("fasta", {"list": [[62] + h + [10, 65, 67, 10] for h in heads]}, [64], {"fixed": [NEXT, ITER, {"ops": [{"o": "set", "s": 0}, {"o": "serde", "s": 0}], "tail": {"o": "next"}}]}, chunks=[[0]], slots=1, extra=0, flags=fl), 4),
+               ("serde-escape-headers-fastq", suite("fastq", {"list": [[64] + h + [10, 65, 10, 43, 10, 73, 10] for h in heads]}, [64], {"fixed": [NEXT, ITER, {"ops": [{"o": "set", "s": 0}, {"o": "serde", "s": 0}], "tail": {"o": "next"}}]}, chunks=[[0]], slots=1, extra=0, flags=fl), 4)]
         J.append(ReaderJob("c19", plain_suites("fasta", tier, fl)[2:4] + plain_suites("fastq", tier, fl)[2:4] + history_suites("fasta", tier, fl, serde=True)[1:] + history_suites("fastq", tier, fl, serde=True)
-                           + history_suites("fasta", tier, flv, serde=True)[2:] + history_suites("fastq", tier, flv, serde=True)[1:]))
+                           + history_suites("fasta", tier, flv, serde=True)[2:] + history_suites("fastq", tier, flv, serde=True)[1:] + esc))
     if prop in ("C01", "C02", "C04", "C05", "C06", "C09", "C13", "C14", "C17", "C18", "C19"):
         # long regular inputs (66 000 records and more): contents, counts, positions, the final error's line and a far seek at
         # sampled indices around 2^7, 2^8, 2^15, 2^16, judged by arithmetic (TraceLong.tla)
@@ -478,7 +500,7 @@ class ParJob:
                          "case": {"par_cfg": r["cfg"], "result": r["result"], "obs": r["obs"], "steer": r.get("steer")}, "job": self.name})
         # 3. the public entry points on real readers
         for fmt in ("fasta", "fastq"):
-            for k, (faults, n) in enumerate([(False, q(tier, 400, 4000)), (True, q(tier, 300, 3000)), (True, q(tier, 300, 3000)), (False, q(tier, 10, 80))]):
+            for k, (faults, n) in enumerate([(False, q(tier, 400, 4000)), (True, q(tier, 300, 3000)), (True, q(tier, 300, 3000)), (False, q(tier, 10, 80)), (False, q(tier, 250, 2500))]):
                 if hang:
                     break
                 sp = os.path.join(wd, "api_%s_%d.json" % (fmt, k))
@@ -489,6 +511,9 @@ class ParJob:
                 if k == 3:
                     # long inputs: batches of several hundred records alternating with batches of two or three (counters only)
                     sd.update({"focus": "big", "gen": {"maxrec": 1, "maxfield": 1, "damage": 0}})
+                if k == 4:
+                    # a source that fails at a random offset of a well-formed input
+                    sd.update({"focus": "iofail", "gen": {"maxrec": 9, "maxfield": 4, "damage": 0}})
                 json.dump(sd, open(sp, "w"))
                 op = os.path.join(wd, "api_%s_%d.ndjson" % (fmt, k))
                 st = vlib.run_harness(["par-api", "--suite", sp, "--out", op, "--seed", str(vlib.seed() + k)])
@@ -621,7 +646,7 @@ def build_jobs(prop, tier):
     if prop == "C11":
         return [SimpleTvJob("writer", "writer", "TraceWriter", tier),
                 SimpleTvJob("long", "long", "TraceLong", tier),
-                ReaderJob("c11views", view_suites("fastq", tier) + view_suites("fasta", tier))]
+                ReaderJob("c11views", view_suites("fastq", tier) + view_suites("fasta", tier) + policy_suites("fastq", tier)[3:4])]
     if prop == "C12":
         class J:
             name = "c12"
